@@ -11,6 +11,8 @@
 #include <ompl/base/objectives/PathLengthOptimizationObjective.h>
 #include <ompl/base/samplers/informed/PathLengthDirectInfSampler.h>
 #include <ompl/base/samplers/informed/RejectionInfSampler.h>
+#include <ompl/base/goals/GoalStates.h>
+#include <random>
 #include <ompl/util/ProlateHyperspheroid.h>
 #include <ompl/util/GeometricEquations.h>
 #include <ompl/util/RandomNumbers.h>
@@ -93,6 +95,28 @@ int main()
                 }
                 double meas = smp->hasInformedMeasure() ? smp->getInformedMeasure(ob::Cost(maxc)) : -1;
                 std::printf("inf %s %u ok %ld oob %ld over %ld under %ld levels %ld %ld %ld %ld cmin %s max %s measure %s\n", kind.c_str(), dim, ok, oob, over, under, lev[0], lev[1], lev[2], lev[3], hexd(cmin).c_str(), hexd(maxc).c_str(), hexd(meas).c_str());
+                sp->freeState(st);
+            }
+            else if (op == "INFM")
+            {   // INFM dim cfactor n seed: direct sampler with ONE start and TWO goal states (two overlapping hyperspheroids): share of the
+                // samples in the overlap region vs a reference share estimated with an independent generator (rejection from the bounding box)
+                unsigned dim, n, seed; double cf; in >> dim >> cf >> n >> seed; ompl::RNG::setSeed(seed);
+                auto sp = std::make_shared<ob::RealVectorStateSpace>(dim); sp->setBounds(-2, 3);
+                auto si = std::make_shared<ob::SpaceInformation>(sp); si->setStateValidityChecker([](const ob::State *) { return true; }); si->setup();
+                auto pdef = std::make_shared<ob::ProblemDefinition>(si); ob::ScopedState<> s(sp);
+                std::vector<double> rs_(dim, 0.0), g1(dim, 0.0), g2(dim, 0.0); rs_[0] = 0.0; g1[0] = 1.0; g2[0] = 0.8; g2[1] = 0.6;
+                sp->copyFromReals(s.get(), rs_); pdef->addStartState(s);
+                auto goals = std::make_shared<ob::GoalStates>(si); { ob::ScopedState<> a(sp), b(sp); sp->copyFromReals(a.get(), g1); sp->copyFromReals(b.get(), g2); goals->addState(a); goals->addState(b); } goals->setThreshold(1e-3);
+                pdef->setGoal(goals);
+                pdef->setOptimizationObjective(std::make_shared<ob::PathLengthOptimizationObjective>(si));
+                double maxc = cf;   // both focal distances are 1
+                ob::PathLengthDirectInfSampler smp(pdef, 100);
+                auto cost = [&](const std::vector<double> &r, const std::vector<double> &g) { double d1 = 0, d2 = 0; for (unsigned i = 0; i < dim; ++i) { d1 += (r[i] - rs_[i]) * (r[i] - rs_[i]); d2 += (r[i] - g[i]) * (r[i] - g[i]); } return std::sqrt(d1) + std::sqrt(d2); };
+                ob::State *st = sp->allocState(); long ok = 0, both = 0, none = 0;
+                for (unsigned k = 0; k < n; ++k) { if (!smp.sampleUniform(st, ob::Cost(maxc))) continue; ++ok; std::vector<double> r; sp->copyToReals(r, st); bool a = cost(r, g1) < maxc, b = cost(r, g2) < maxc; if (a && b) ++both; if (!a && !b) ++none; }
+                std::mt19937_64 gen(seed * 977u + 5u); std::uniform_real_distribution<double> u(-2, 3); long rin = 0, rboth = 0; std::vector<double> r(dim);
+                for (long k = 0; k < 4000000 && rin < 200000; ++k) { for (auto &v : r) v = u(gen); bool a = cost(r, g1) < maxc, b = cost(r, g2) < maxc; if (a || b) { ++rin; if (a && b) ++rboth; } }
+                std::printf("infm %u ok %ld both %ld none %ld ref-in %ld ref-both %ld\n", dim, ok, both, none, rin, rboth);
                 sp->freeState(st);
             }
         }
